@@ -924,6 +924,26 @@ func RuleZ1(c *Ctx) {
 		case *ast.Ident:
 			obj := info.ObjectOf(x)
 			cf := c.CFG(pk, fd.Body)
+			// `c, je := s.currentByte()`: the byte is the i-th result of a helper - judge
+			// what the helper hands out at that position
+			if rhs, idx, isTuple := cf.TupleDefOf(obj); isTuple && depth <= 2 {
+				if hc, ok := ast.Unparen(rhs).(*ast.CallExpr); ok {
+					if gd := c.P.Decl(Callee(info, hc)); gd != nil && gd.Body != nil {
+						res, why := true, ""
+						inspectNoLit(gd.Body, func(n ast.Node) bool {
+							ret, ok := n.(*ast.ReturnStmt)
+							if !ok || idx >= len(ret.Results) {
+								return true
+							}
+							if ok2, w := judge(gd, ret.Results[idx], ret, depth+1); !ok2 {
+								res, why = false, gd.Name.Name+": "+w
+							}
+							return true
+						})
+						return res, why
+					}
+				}
+			}
 			assignsTo := func(nd ast.Node, pred func(ast.Expr) bool) bool {
 				as, ok := nd.(*ast.AssignStmt)
 				if !ok || len(as.Lhs) != len(as.Rhs) {
